@@ -215,7 +215,8 @@ def rule_all_pairs(chk, prog):
 def rule_path_lengths(chk, prog):
     r = chk.rule("IDEAL-DISTANCES", "ConstrainedFDLayout::computePathLengths, symbolic: D[i][j] = idealEdgeLength * shortest path length, "
                  "unreachable pairs keep DBL_MAX and get G = 0, adjacent pairs G = 1, other reachable pairs G = 2, non-positive lengths are "
-                 "replaced by 1 before use, the diagonal stays 0", floor=3)
+                 "replaced by 1 before use; D and G start uninitialised (as new[] leaves them) and every entry of G, the diagonal included (0), has a "
+                 "defined value afterwards", floor=3)
     fn = prog.fn("cola::ConstrainedFDLayout::computePathLengths")
     L = Poly.var("L")
     cases = [
@@ -231,7 +232,7 @@ def rule_path_lengths(chk, prog):
             it.positive = set(names) | {"L"}
             it.bounded = set(names) | {"L"}
             this = Obj("cola::ConstrainedFDLayout", {
-                "n": n, "D": Vec([Vec([UNINIT] * n) for _ in range(n)]), "G": Vec([Vec([0] * n) for _ in range(n)]),
+                "n": n, "D": Vec([Vec([UNINIT] * n) for _ in range(n)]), "G": Vec([Vec([UNINIT] * n) for _ in range(n)]),     # (new[] leaves both uninitialised)
                 "m_idealEdgeLength": L, "minD": DBL_MAX, "topologyAddon": Obj("cola::TopologyAddonInterface", {})})
             es = Vec([pair(u, v) for u, v in edges])
             try:
@@ -270,6 +271,9 @@ def rule_path_lengths(chk, prog):
                         got = this.f["D"].items[i].items[j]
                         g = this.f["G"].items[i].items[j]
                         if i == j:
+                            if g is UNINIT or g != 0:
+                                prob = prob or "G[%d][%d] is %s: the diagonal of the neighbour matrix (handed out by readLinearG) must be 0" % (
+                                    i, j, "left uninitialised" if g is UNINIT else g)
                             continue
                         gotv = to_poly(got).eval_exact(env) if got is not UNINIT else None
                         if ref[i][j] is None:
